@@ -29,6 +29,19 @@ def build():
     return vlib.build("h_rot", [vlib.HARNESS / "h_rot.cpp"])
 
 
+def load_proposed(ck):
+    """Interim: known-finding lines proposed by this builder and not yet merged into known_findings.txt by the coordinator
+    (other builders edit that file in parallel). Same format, same matching; never written at run time."""
+    p = vlib.VERIF / "known_findings.d" / "C14_C15.proposed.txt"
+    if p.exists():
+        extra = vlib.Known(p)
+        new = {k: v for k, v in extra.findings.items() if k not in ck.known.findings}
+        ck.known.findings.update(new)
+        if new:
+            vlib.log(f"[rot] {len(new)} proposed known-finding lines loaded from {p} (pending merge into known_findings.txt)")
+            ck.extra["proposed_known_findings_file"] = str(p)
+
+
 # --------------------------------------------------------------------------- reference calendar
 def tz_of(cfg):
     return timezone.utc if cfg["zone"] == "G" else ZoneInfo(cfg["tz"])
@@ -252,6 +265,12 @@ def signature(it, obs, j, clauses):
     explain it (root-cause class); anything not explained by a known class gets the plain clause signature."""
     cfg, ops = it["cfg"], it["ops"]
     p = primary(clauses)
+    if set(clauses) <= {"order", "order_after_restart"} and cfg["scheme"] in ("D", "T") and cfg["zone"] == "L":
+        # local wall-clock time repeats when DST ends: a later instant gets an earlier suffix
+        ts = [op[2] if op[0] in ("C", "R") else op[3] for op in ops[:j + 1]]
+        sx = [suffix(t, cfg) for t in ts]
+        if any(ts[a] < ts[b] and sx[a] > sx[b] for a in range(len(ts)) for b in range(a + 1, len(ts))):
+            return f"local-time-suffix-goes-back-when-dst-ends:scheme={cfg['scheme']}:order"
     if set(clauses) <= RESTART_CLAUSES and cfg["scheme"] in ("D", "T"):
         # an append-mode restart happened while rotated files existed that the scheme's recovery does not pick up
         for i in range(j, -1, -1):
@@ -319,7 +338,7 @@ def judge(ck, exe, items, props, label=""):
         groups.setdefault(sig, []).append(k)
     ck.traces_validated += len(items) - len(mine)
     # confirmation: the shortest few of each class are executed again, alone, and judged again
-    ck.extra["rejection_classes"] = ck.extra.get("rejection_classes", 0) + len(groups)
+    ck.extra["rejection_classes"] = len(set(ck.extra.get("rejections", {})) | set(groups))
     known_first = sorted(groups.items(), key=lambda g: (ck.known.match(ck.prop, g[0]) is None, g[0]))
     n_new = 0
     for sig, ks in known_first:
@@ -328,6 +347,10 @@ def judge(ck, exe, items, props, label=""):
             if n_new > 16:      # enough to act on; the rest is counted only
                 continue
         ks.sort(key=lambda k: (mine[k][0], len(by_k[k]["ops"]), k))
+        done = ck.extra.setdefault("rejections", {})
+        if sig in done:     # class already confirmed and reported by an earlier chunk of this run
+            done[sig]["executions"] += len(ks)
+            continue
         confirmed = None
         for k in ks[:3]:
             it = dict(by_k[k])
@@ -345,7 +368,7 @@ def judge(ck, exe, items, props, label=""):
         it, o2, (j, why) = confirmed
         text = f"{'+'.join(why)} at op {j}: {describe(it, j)} => directory " + \
                json.dumps({f['n']: f['ids'] for f in o2[j]['files'] if parse_name(f['n'], it['cfg']['scheme'])[0] != 3})
-        ck.extra.setdefault("rejections", {})[sig] = {"executions": len(ks), "example": text}
+        done[sig] = {"executions": len(ks), "example": text}
         ck.violation(sig, text, {"item": {kk: vv for kk, vv in it.items() if kk != "pred"}, "script": script([it]),
                                  "trace": trace_lines(it, o2), "rejected_op": j, "why": why, "harness": "h_rot"})
     return obs, mine
@@ -517,3 +540,22 @@ def replay(ck, path):
     for o in obs.get(it["k"], []):
         print(json.dumps({"op": o["op"], "i": o["i"], "err": o["err"], "files": {f["n"]: f["ids"] for f in o["files"]}}))
     print("contract:", "REJECTED " + json.dumps(rej[it["k"]]) if it["k"] in rej else "accepted")
+
+
+def process(ck, exe, items, props, chunk=40000, nsamples=2):
+    """judge + drift comparison + case accounting, in chunks (bounded memory)."""
+    total_rej = 0
+    for a in range(0, len(items), chunk):
+        part = items[a:a + chunk]
+        obs, mine = judge(ck, exe, part, props)
+        drift_check(ck, part, obs, skip=())
+        for it in part:
+            ck.case(key_of(it), rotated_count(it, obs) > 0)
+        if a == 0:
+            step = max(1, len(part) // nsamples)
+            for it in part[step // 2::step][:nsamples]:
+                ck.sample({"config": it["cfg"], "ops": [list(o) for o in it["ops"][:14]], "final_directory": final_dir(it, obs)})
+        total_rej += len(mine)
+        for it in part:
+            it.pop("pred", None)
+    ck.extra["executions_rejected"] = ck.extra.get("executions_rejected", 0) + total_rej
